@@ -268,7 +268,13 @@ def recursion(ctx, L, cg, funcs, establishers):
     raises = [r for r in fp.walk() if isinstance(r, ast.Raise) and 'CyclicIncludeError' in unparse(r.exc)
               and P.knows(fp, r, 'os.path.abspath(path) in self.files and self.files[os.path.abspath(path)] is None', True, CP)]
     procs = [c for c in fp.walk() if isinstance(c, ast.Call) and unparse(c.func) == 'self.process_content']
-    L.check(len(marks) == 1 and len(raises) == 1 and len(procs) == 1 and marks[0].lineno < procs[0].lineno
+    def dfs(n):
+        yield n
+        for c in ast.iter_child_nodes(n):
+            for x in dfs(c):
+                yield x
+    seq = dict((id(n), i) for i, n in enumerate(dfs(fp.node)))      # structural order (folded helpers carry the caller's line)
+    L.check(len(marks) == 1 and len(raises) == 1 and len(procs) == 1 and seq[id(marks[0])] < seq[id(procs[0])]
             and P.knows(fp, procs[0], 'os.path.abspath(path) in self.files', False, CP), 'F12.establisher', 'include cycle marker', fp.site(),
             'the cycle marker must be stored before processing and tested (is None) before use', s[:300])
 
